@@ -21,3 +21,6 @@ func vand(a, b bool) bool          { return a && b }
 func vor(a, b bool) bool           { return a || b }
 func vimplies(a, b bool) bool      { return !a || b }
 func vaddrOf(b []byte) int         { return 0 }
+func vutf8valid(b []byte) bool      { return false }
+func vfreezeBytes(b []byte)          {}
+func vunfreezeBytes(b []byte)        {}
